@@ -7,10 +7,12 @@ import (
 	"errors"
 	"fmt"
 	"io"
+	"reflect"
 	"regexp/syntax"
 	"sort"
 	"strconv"
 	"strings"
+	"unsafe"
 
 	"github.com/plgd-dev/go-coap/v3/message"
 	"github.com/plgd-dev/go-coap/v3/message/codes"
@@ -35,9 +37,14 @@ type State struct {
 	// caller is the application's own slice of middlewares last handed to Use as `Use(caller...)`; it has spare capacity
 	// and stays the application's property: what the application does with it later is none of the router's business
 	caller []mux.MiddlewareFunc
+	// errs: names of the error handlers (SetErrorHandler) called during the current dispatch
+	errs []string
+	// Inner is a second router (operations prefixed `inner`), the target of mount handlers; its handlers and middlewares
+	// record into this state
+	Inner *mux.Router
 }
 
-func New() *State { return &State{R: mux.NewRouter()} }
+func New() *State { return &State{R: mux.NewRouter(), Inner: mux.NewRouter()} }
 
 // Writer is the ResponseWriter handed to Router.ServeCOAP: the router's built-in NotFound responder shows up in
 // SetResponse. Inner (optional) is the real writer of the connection; calls are passed on to it.
@@ -45,6 +52,8 @@ type Writer struct {
 	S     *State
 	Req   *mux.Message
 	Inner mux.ResponseWriter
+	// Fail makes SetResponse refuse (after recording): what the built-in NotFound responder reports to Router.errors
+	Fail bool
 }
 
 func (w *Writer) SetResponse(code codes.Code, cf message.MediaType, d io.ReadSeeker, opts ...message.Option) error {
@@ -52,6 +61,9 @@ func (w *Writer) SetResponse(code codes.Code, cf message.MediaType, d io.ReadSee
 		w.S.chain = append(w.S.chain, "=notfound")
 		w.S.hits = append(w.S.hits, hit{h: "notfound", isDefault: true, path: w.Req.RouteParams.Path,
 			tpl: w.Req.RouteParams.PathTemplate, vars: copyVars(w.Req.RouteParams.Vars)})
+	}
+	if w.Fail {
+		return errors.New("response writer refuses")
 	}
 	if w.Inner != nil {
 		return w.Inner.SetResponse(code, cf, d, opts...)
@@ -168,6 +180,18 @@ func Arg(f []string, i int) string {
 	return string(b)
 }
 
+// SetPathExact replaces the Uri-Path options of msg so that Options().Path() yields exactly path ("" = no option at all,
+// else it must start with "/": one option per segment, empty segments included).
+func SetPathExact(msg *pool.Message, path string) {
+	msg.Remove(message.URIPath)
+	if path == "" {
+		return
+	}
+	for _, seg := range strings.Split(path[1:], "/") {
+		msg.AddOptionBytes(message.URIPath, []byte(seg))
+	}
+}
+
 // Register executes route / routef / unroute / default / defaultf / mw on the state's router and prints the answer.
 // It reports false when the line is none of these.
 func (s *State) Register(f []string, w *bufio.Writer) bool {
@@ -205,6 +229,26 @@ func (s *State) Register(f []string, w *bufio.Writer) bool {
 		fmt.Fprintln(w, "ok")
 	case f[0] == "mw" && len(f) == 2:
 		s.R.Use(s.mw(f[1]))
+		fmt.Fprintln(w, "ok")
+	case f[0] == "inner" && len(f) >= 3 && f[1] != "inner" && f[1] != "mount":
+		// a registration operation on the inner router
+		s.R, s.Inner = s.Inner, s.R
+		defer func() { s.R, s.Inner = s.Inner, s.R }()
+		return s.Register(f[1:], w)
+	case f[0] == "mount" && len(f) == 3:
+		// a route of the outer router whose handler strips the path down to the value of one of its variables and hands
+		// the SAME message to the inner router (chain: >v … <v)
+		p, v, tag := Arg(f, 1), Arg(f, 2), f[2]
+		h := mux.HandlerFunc(func(w mux.ResponseWriter, r *mux.Message) {
+			s.chain = append(s.chain, ">"+tag)
+			SetPathExact(r.Message, "/"+r.RouteParams.Vars[v])
+			s.Inner.ServeCOAP(w, r)
+			s.chain = append(s.chain, "<"+tag)
+		})
+		fmt.Fprintln(w, ErrKind(s.R.Handle(p, h)))
+	case f[0] == "seterr" && len(f) == 2:
+		name := f[1]
+		s.R.SetErrorHandler(func(error) { s.errs = append(s.errs, name) })
 		fmt.Fprintln(w, "ok")
 	case f[0] == "usev" && len(f) == 3:
 		// Use(caller...) with a slice the application owns and that has <spare> unused elements of capacity
@@ -256,7 +300,72 @@ func (s *State) mw(name string) mux.MiddlewareFunc {
 }
 
 // Begin clears the record before a dispatch.
-func (s *State) Begin() { s.chain, s.hits, s.panick = nil, nil, "" }
+func (s *State) Begin() { s.chain, s.hits, s.panick, s.errs = nil, nil, "", nil }
+
+// Errs names the error handlers called since Begin ("-" = none).
+func (s *State) Errs() string {
+	if len(s.errs) == 0 {
+		return "-"
+	}
+	return strings.Join(s.errs, ",")
+}
+
+// RouteFields describes a route obtained from GetRoute / GetRoutes: `<pattern> <handler> <regexp>` (hex, name, hex). The
+// package only exports GetRouteRegexp, so the route's own pattern and handler are read from its unexported fields (the
+// route is a copy the accessor handed out); which recording handler it holds is found out by invoking it.
+func (s *State) RouteFields(rt *mux.Route) string {
+	v := reflect.ValueOf(rt).Elem()
+	pf := v.FieldByName("pattern")
+	hf := v.FieldByName("h")
+	pattern := reflect.NewAt(pf.Type(), unsafe.Pointer(pf.UnsafeAddr())).Elem().Interface().(string)
+	h, _ := reflect.NewAt(hf.Type(), unsafe.Pointer(hf.UnsafeAddr())).Elem().Interface().(mux.Handler)
+	name := "nilhandler"
+	if h != nil {
+		saved := *s
+		s.Begin()
+		func() {
+			defer func() {
+				if recover() != nil {
+					name = "nilf"
+				}
+			}()
+			req := &mux.Message{RouteParams: new(mux.RouteParams)}
+			h.ServeCOAP(&Writer{S: s, Req: req}, req)
+			if len(s.hits) == 1 {
+				name = s.hits[0].h
+			} else {
+				name = fmt.Sprintf("ran%d", len(s.hits))
+			}
+		}()
+		s.chain, s.hits, s.panick, s.errs = saved.chain, saved.hits, saved.panick, saved.errs
+	}
+	rx, err := rt.GetRouteRegexp()
+	rxs := lp.Hex([]byte(rx))
+	if err != nil {
+		rxs = "!" + strings.ReplaceAll(err.Error(), " ", "_")
+	}
+	return fmt.Sprintf("%s %s %s", lp.Hex([]byte(pattern)), name, rxs)
+}
+
+// Routes is the canonical report of GetRoutes: `routes <n> <key>/<pattern>/<handler>/<regexp>,…` sorted. The returned map is
+// the caller's (a clone): it is emptied afterwards, which must not reach the router.
+func (s *State) Routes() string {
+	m := s.R.GetRoutes()
+	if len(m) == 0 {
+		return "routes 0 -"
+	}
+	es := make([]string, 0, len(m))
+	for k, rt := range m {
+		rt := rt
+		es = append(es, lp.Hex([]byte(k))+"/"+strings.ReplaceAll(s.RouteFields(&rt), " ", "/"))
+	}
+	sort.Strings(es)
+	n := len(m)
+	for k := range m {
+		delete(m, k)
+	}
+	return fmt.Sprintf("routes %d %s", n, strings.Join(es, ","))
+}
 
 // Report is the canonical line for what ran since Begin: `none`, `hit <h> <pattern|*> <vars> <chain> <path> <template>`,
 // or a diagnostic when more than one handler ran.
